@@ -646,7 +646,7 @@ def wl_spin_chains(rng, rec, tier):
     from ..core import dense_of
     L = int(rng.integers(2, 7))
     cyclic = bool(rng.random() < 0.4) and L > 2
-    which = gen.choice(rng, ["heis", "ising", "XY", "mbl", "spinham", "spinham", "heis_S1", "bilbiq", "zspin"])
+    which = gen.choice(rng, ["heis", "ising", "XY", "mbl", "spinham", "spinham", "heis_S1", "bilbiq", "zspin", "heis2d"])
     S = 0.5
     desc = {"L": L, "cyclic": cyclic, "which": which}
 
@@ -737,6 +737,32 @@ def wl_spin_chains(rng, rec, tier):
         lh = gen.attempt(tb.ham_1d_bilinear_biquadratic, L, theta, S=S, cyclic=cyclic)
         if lh is not None:
             check("localham", localham_dense(lh, dloc), want)
+    elif which == "heis2d":
+        # the 2D matrix-side generator against the 1D one and the shared convention
+        # H = sum_<ab> j S_a.S_b - bz sum_a S^z_a
+        n_, m_ = int(rng.integers(1, 3)), int(rng.integers(2, 4))
+        jj = float(np.round(rng.normal(), 3)) or 1.0
+        bz = float(np.round(rng.normal(), 3)) or 0.5
+        sp_ = [rl.dense(qu.spin_operator(a, S=0.5)) for a in "xyz"]
+        N = n_ * m_
+        want = np.zeros((2 ** N, 2 ** N), dtype=complex)
+        def idx(i, j_):
+            return i * m_ + j_
+        for i in range(n_):
+            for j_ in range(m_):
+                if j_ + 1 < m_:
+                    want += jj * sum(rl.embed(np.kron(a, a), [2] * N, [idx(i, j_), idx(i, j_ + 1)]) for a in sp_)
+                if i + 1 < n_:
+                    want += jj * sum(rl.embed(np.kron(a, a), [2] * N, [idx(i, j_), idx(i + 1, j_)]) for a in sp_)
+                want -= bz * rl.embed(sp_[2], [2] * N, [idx(i, j_)])
+        got = gen.attempt(qu.ham_heis_2D, n_, m_, j=jj, bz=bz)
+        if got is not None:
+            check("matrix2d", rl.dense(got), want)
+        if n_ == 1:
+            g1 = gen.attempt(qu.ham_heis, m_, j=jj, b=bz)
+            if g1 is not None:
+                check("matrix1d", rl.dense(g1), want)
+        desc.update(n=n_, m=m_)
     elif which == "zspin":
         # projector onto a total S^z sector, S^z measured with the library's own
         # spin operator: S^z_tot P = sz P, orthonormal columns, right size
